@@ -5,7 +5,7 @@ from harness.lib import catalog, libcheck
 
 
 def run(prop, tier, seed, only=None):
-    names = sorted(catalog.catalog(tier))
+    names = sorted(catalog.catalog(tier)) + ["SyntheticMultiAgent"]
     if only:
         names = [n for n in names if n in only]
     d = libcheck.trace_dir(prop)
